@@ -23,7 +23,8 @@ func SuggestionList(input string, options []string) []string {
 		}
 	}
 
-	sort.Slice(results, func(i, j int) bool {
+	// stable: options at the same distance keep the order in which they were given
+	sort.SliceStable(results, func(i, j int) bool {
 		return optionsByDistance[results[i]] < optionsByDistance[results[j]]
 	})
 	return results
